@@ -230,6 +230,9 @@ func (u *upstream) getClient(addr string) (*client, error) {
 	c, err := u.createClient(addr)
 	call.res, call.err = c, err
 	close(call.done)
+	// NOTE: only concurrent callers share the result of one attempt, later
+	// callers must try again, otherwise the address could never recover.
+	u.createClientCalls.Delete(addr)
 	return c, err
 }
 
